@@ -455,6 +455,399 @@ def c03(tier, seed):
              "(median prediction, wrap), chroma vectors, bilinear prediction with edge clamp, residuals, and compares planes")
 
 
+def concat_delivery(cmds):
+    """histories whose "new" command carries "concat": all pictures' bytes are appended to the reader before
+    the first decode call; the decode calls then carry "pre": true"""
+    out, i = [], 0
+    while i < len(cmds):
+        c = cmds[i]
+        if c["op"] == "new" and c.get("concat"):
+            j = i + 1
+            allb = []
+            while j < len(cmds) and cmds[j]["h"] == c["h"]:
+                if cmds[j]["op"] == "decode":
+                    allb += cmds[j]["bytes"]
+                    cmds[j]["pre"] = True
+                j += 1
+            out.append(c)
+            out.append({"op": "append", "d": 0, "h": c["h"], "bytes": allb})
+            out += cmds[i + 1:j]
+            i = j
+        else:
+            out.append(c)
+            i += 1
+    return out
+
+
+# =========================================================================== C15
+@plan("C15")
+def c15(tier, seed):
+    run = Run("C15", tier, seed)
+    rng = random.Random(seed)
+    run.model_check("MCTables", workers=4)
+    H = Hist()
+    sizes = [(16, 16), (17, 3), (33, 16)]
+    seqs = []
+    types = ["I", "P", "D"]
+    # every sequence of 1..3 picture types starting with I (4 in thorough), x size x Sorenson version / standard mode
+    def rec(prefix, n):
+        if len(prefix) == n:
+            seqs.append(list(prefix))
+            return
+        for t in types:
+            rec(prefix + [t], n)
+    for n in ([1, 2, 3] if tier == "quick" else [1, 2, 3, 4]):
+        rec(["I"], n)
+    for ts in seqs:
+        for (w, h) in sizes:
+            for mode in ("sor0", "sor1", "plus"):
+                if mode == "plus" and ("D" in ts or (w, h) == (17, 3) or (w, h) == (33, 16)):
+                    continue
+                pics = []
+                for k, t in enumerate(ts):
+                    if mode == "plus":
+                        hdr = pg.header("plus", t, tr=k, q=rng.randrange(1, 32), w=w, h=h)
+                    else:
+                        hdr = sor_hdr(rng, t, k, w, h, int(mode[-1]))
+                    pics.append(pg.intra_picture(rng, hdr, big=False, shape="sparse") if t == "I"
+                                else pg.inter_picture(rng, hdr, pt=t, big=False, shape="sparse"))
+                for concat in (True, False):
+                    H.new(sor=(mode != "plus"))
+                    H.cmds[-1]["concat"] = concat
+                    for p in pics:
+                        if not concat:
+                            H.op("newreader")
+                        H.decode(json.loads(json.dumps(p)))
+    # longer random sequences in one reader
+    for i in range(30 if tier == "quick" else 400):
+        w, h = rng.choice([(16, 16), (17, 3), (33, 16), (48, 32), (5, 5)])
+        ver = rng.randrange(2)
+        H.new()
+        H.cmds[-1]["concat"] = True
+        for k in range(rng.randrange(2, 9)):
+            t = "I" if k == 0 else rng.choice(types)
+            hdr = sor_hdr(rng, t, k, w, h, ver)
+            H.decode(pg.intra_picture(rng, hdr, big=False) if t == "I" else pg.inter_picture(rng, hdr, pt=t, big=False))
+    npics = sum(1 for c in H.cmds if c["op"] == "decode")
+    enc = concat_delivery(run.encode(H.cmds))
+    run.drive_and_validate(enc, "TraceDecoder", group=hkey, sample=2)
+    run.evaluations = npics
+    run.nontrivial = H.n
+    run.notes["sequences"] = H.n
+    run.notes["decode_calls"] = npics
+    return run.finish(
+        rule="every sequence of 1..%d pictures I{I,P,D}* x sizes {16x16, 17x3, 33x16} x {Sorenson v0, v1, standard custom-format} "
+             "delivered (a) concatenated in one reader with all bytes present before the first call and (b) one reader per "
+             "picture, plus random longer concatenated sequences; both deliveries are validated in pixel mode against the same "
+             "model and after every call the reader probe must equal the stream at the end of that picture's macroblock data"
+             % (3 if tier == "quick" else 4))
+
+
+def decode_stat(ev):
+    """coverage classes: outcome of each decode call by kind of input"""
+    if ev.get("op") != "decode":
+        return None
+    kind = ev.get("why") or ("pixel-" + ev["pic"]["pt"] if "pic" in ev and "opaque" not in ev else "opaque")
+    ret = ev.get("ret", "?")
+    return "%s => %s" % (kind, ret if ret.startswith("err") or ret == "ok" else ret.split(":")[0])
+
+
+# =========================================================================== C01
+def mutate(rng, b):
+    """corruptions of a valid encoded picture"""
+    b = list(b)
+    r = rng.random()
+    if r < 0.35 and b:
+        for _ in range(rng.randrange(1, 4)):
+            i = rng.randrange(len(b))
+            b[i] ^= 1 << rng.randrange(8)
+        return b, "bitflip"
+    if r < 0.55 and len(b) > 1:
+        return b[:rng.randrange(1, len(b))], "truncate"
+    if r < 0.7 and len(b) > 4:
+        i = rng.randrange(3, len(b))
+        n = rng.randrange(1, 6)
+        return b[:i] + rbytes(rng, n) + b[i + rng.randrange(0, n + 1):], "splice"
+    if r < 0.85:
+        return b + rbytes(rng, rng.randrange(1, 40)), "append-garbage"
+    i = rng.randrange(len(b)) if b else 0
+    return b[:i] + [0] * rng.randrange(1, 6) + b[i:], "insert-zeros"
+
+
+@plan("C01")
+def c01(tier, seed):
+    run = Run("C01", tier, seed)
+    rng = random.Random(seed)
+    run.model_check("MCDecoder", "MCDecoder", workers=8, xmx="4g")
+    # ---- base material: valid pictures as abstract values, encoded by TLC
+    base = []
+
+    def add(tag, pic, **kw):
+        c = {"op": "x", "pic": pic, "tag": tag, "opaque": True}
+        c.update(kw)
+        base.append(c)
+
+    dims = [(1, 1), (15, 16), (16, 16), (17, 16), (32, 16), (32, 32), (33, 17), (48, 32), (16, 48)]
+    for (w, h) in dims:
+        for ver in (0, 1):
+            add("I", pg.intra_picture(rng, sor_hdr(rng, "I", 0, w, h, ver), stuffing=0.05), w=w, h=h, ver=ver, sor=True)
+            add("P", pg.inter_picture(rng, sor_hdr(rng, "P", 1, w, h, ver), stuffing=0.05), w=w, h=h, ver=ver, sor=True)
+            add("D", pg.inter_picture(rng, sor_hdr(rng, "D", 2, w, h, ver), pt="D"), w=w, h=h, ver=ver, sor=True)
+    for (w, h) in [(16, 16), (36, 20)]:
+        add("I", pg.intra_picture(rng, pg.header("plus", "I", tr=0, q=rng.randrange(1, 32), w=w, h=h), big=False), w=w, h=h, ver=0, sor=False)
+        add("P", pg.inter_picture(rng, pg.header("plus", "P", tr=1, q=rng.randrange(1, 32), w=w, h=h), big=False), w=w, h=h, ver=0, sor=False)
+    # structured attacks on the abstract level: declared size vs actual macroblocks, zero sizes, extremes
+    attacks = []
+    for (w, h) in [(16, 16), (32, 16)]:
+        for (dw, dh) in [(0, 0), (0, 16), (16, 0), (1, 1), (15, 15), (17, 17), (32, 32), (33, 16), (16, 33), (255, 255), (64, 1)]:
+            for ver in (0, 1):
+                for pt in ("I", "P"):
+                    hdr = sor_hdr(rng, pt, 3, w, h, ver)
+                    p = pg.intra_picture(rng, hdr, big=False) if pt == "I" else pg.inter_picture(rng, hdr, big=False)
+                    p["w"], p["h"] = dw, dh          # declared size differs from the macroblocks present
+                    attacks.append({"op": "x", "pic": p, "tag": "declare-%dx%d" % (dw, dh), "opaque": True, "w": w, "h": h, "ver": ver, "sor": True})
+    for ver in (0, 1):
+        for q in (1, 2, 30, 31):
+            for lev in ([1, 63, 127] if ver == 0 else [1, 63, 127, 528, 529, 1023]):
+                for sgn in (1, -1):
+                    form = 1 if (ver == 0 or lev <= 63) else 2
+                    blocks = [{"dc": 255, "ev": [[0, 0, sgn * lev, form], [0, 62, -sgn * lev, form], [1, 0, sgn * lev, form]]} for _ in range(6)]
+                    p = one_mb_intra(rng, ver, q, 15, 3, blocks=blocks)       # run past 64 and extreme levels
+                    attacks.append({"op": "x", "pic": p, "tag": "run-past-64", "opaque": True, "w": 16, "h": 16, "ver": ver, "sor": True})
+    for ver in (0, 1):      # vectors far outside: chains of extreme differentials
+        for d in (-32, 31):
+            hdr = sor_hdr(rng, "P", 4, 48, 32, ver)
+            p = dict(hdr)
+            p["mbs"] = [pg.coded_mb(rng, rng.choice([0, 2]), ver == 1, mvd=None, big=False) for _ in range(6)]
+            for m in p["mbs"]:
+                m["mvd"] = [[d, d] for _ in m["mvd"]]
+            attacks.append({"op": "x", "pic": p, "tag": "vectors-far-outside", "opaque": True, "w": 48, "h": 32, "ver": ver, "sor": True})
+    enc = run.encode(base + attacks)
+    encbase, encatt = enc[:len(base)], enc[len(base):]
+    byt = lambda tag, w, h, ver, sor: [c["bytes"] for c in encbase if c["tag"] == tag and c["w"] == w and c["h"] == h and c["ver"] == ver and c["sor"] == sor]
+    # ---- histories of opaque calls
+    H = Hist()
+    ncalls = [0]
+
+    def call(b, why):
+        H.op("newreader")
+        H.decode(None, bytes=b, planes=False, why=why, guard_size=True)
+        ncalls[0] += 1
+
+    combos = [(True, False), (True, True), (False, False), (False, True)]
+    nrep = 10 if tier == "quick" else 400
+    # (a) every structured attack after every kind of prior history, all option combinations
+    prehist = [[], ["I"], ["I", "P"], ["I", "D"], ["I", "X"], ["X"]]
+    for rep in range(1 if tier == "quick" else 6):
+        for a in encatt:
+            for pre in prehist:
+                for (sor, scal) in (combos if rep == 0 else [rng.choice(combos)]):
+                    H.new(sor=sor, scal=scal)
+                    for t in pre:
+                        if t == "X":
+                            call(rng.choice(GARBAGE), "garbage")
+                        else:
+                            cand = byt(t, a["w"], a["h"], a["ver"], True)
+                            call(rng.choice(cand), "valid-" + t)
+                    call(a["bytes"], a["tag"])
+                    # and something valid afterwards: the decoder must still be usable
+                    cand = byt("P", a["w"], a["h"], a["ver"], True)
+                    call(rng.choice(cand), "valid-P-after")
+    # (b) truncation of valid pictures at every byte, in histories
+    for c in encbase:
+        if c["w"] * c["h"] > 32 * 32 and tier == "quick":
+            continue
+        step = 1 if len(c["bytes"]) < 200 or tier == "thorough" else 3
+        for cut in range(0, len(c["bytes"]), step):
+            H.new(sor=c["sor"])
+            if c["tag"] != "I":
+                cand = byt("I", c["w"], c["h"], c["ver"], c["sor"])
+                call(cand[0], "valid-I")
+            call(c["bytes"][:cut], "truncate-at-%s" % ("every-byte"))
+    # (c) random corruptions of valid pictures inside random histories, incl. picture-size changes between calls
+    for i in range(1500 * nrep):
+        sor, scal = rng.choice(combos)
+        H.new(sor=sor, scal=scal)
+        for k in range(rng.randrange(1, 9)):
+            c = rng.choice(encbase)
+            if rng.random() < 0.45:
+                call(c["bytes"], "valid-" + c["tag"])
+            else:
+                b, why = mutate(rng, c["bytes"])
+                call(b, why)
+    # (d) uniform random bytes behind a valid start code, and plain random bytes
+    for i in range(2500 * nrep):
+        sor, scal = rng.choice(combos)
+        H.new(sor=sor, scal=scal)
+        if rng.random() < 0.5:
+            c = rng.choice(encbase)
+            call(c["bytes"], "valid-" + c["tag"])
+        n = rng.randrange(0, 120)
+        if sor:
+            b = [0, 0, 0x80 | rng.randrange(0, 4)] + rbytes(rng, n)
+        else:
+            b = [0, 0, 0x80, rng.randrange(0, 4)] + rbytes(rng, n)
+        r_ = rng.random()
+        if r_ < 0.5:        # a valid header (and a little macroblock data) followed by random bytes: goes deep
+            c = rng.choice(encbase)
+            k = rng.randrange(4, min(len(c["bytes"]), 14) + 1)
+            call(c["bytes"][:k] + rbytes(rng, n), "valid-header-then-random")
+        else:
+            call(b if r_ < 0.93 else rbytes(rng, n), "random-bytes")
+    run.drive_and_validate(H.cmds, "TraceDecoder", group=hkey, sample=3, stat_fn=decode_stat, timeout_ms=10000,
+                           resync=lambda c: c["op"] == "new")
+    run.evaluations = ncalls[0]
+    run.nontrivial = len({json.dumps(c.get("bytes")) for c in H.cmds if c["op"] == "decode"})
+    run.notes["decode_calls"] = ncalls[0]
+    run.notes["histories"] = H.n
+    run.assumptions = ["inputs declaring more than 2^22 luma samples are not generated (the property's stated exclusion)",
+                       "memory safety proper is delegated to safe Rust (the three crates contain no unsafe code); the harness "
+                       "build has overflow checks and debug assertions enabled, so arithmetic overflow is observed as a panic"]
+    return run.finish(
+        rule="decode calls on: (a) structured attacks built on the abstract picture syntax and encoded by TLC (declared size vs "
+             "macroblocks present over {0,1,15,16,17,32,33,64,255}, zero sizes, runs past 64 with extreme levels at boundary "
+             "quantizers, chains of extreme vector differentials) after six kinds of prior history x four option combinations; "
+             "(b) truncation of valid pictures at every byte; (c) 1-3 bit flips, splices, appended garbage, inserted zeros inside "
+             "random histories of valid / invalid pictures with size changes; (d) random bytes behind a start code; every call "
+             "runs in an isolated driver process with a watchdog; TLC validates every history: the outcome must be ok or err and "
+             "the observable state consistent with it; distinct = distinct byte strings")
+
+
+# =========================================================================== C05
+def faulty_pictures(rng, w, h, ver, have_ref):
+    """inputs that must not be (or need not be) decodable, one per error site; all 'opaque' for the validator"""
+    out = []
+    def base(pt):
+        hdr = sor_hdr(rng, pt, rng.randrange(256), w, h, ver)
+        return pg.intra_picture(rng, hdr, big=False) if pt == "I" else pg.inter_picture(rng, hdr, pt=pt, big=False,
+                                                                                        mix=[1, 5, 2, 3, 1, 1, 1])
+    # header level
+    p = base("I"); p["sc"] = 7; out.append(("header-reserved-size", p))
+    p = base("I"); p["pt"] = "R"; out.append(("header-reserved-type", p))
+    # macroblock header level
+    for fault in ("mcbpc", "cbpy", "tcoef"):
+        for pt in ("I", "P"):
+            p = base(pt)
+            idx = [i for i, m in enumerate(p["mbs"]) if m["k"] == "mb"]
+            if not idx:
+                continue
+            i = rng.choice(idx)
+            p["mbs"][i]["fault"] = fault
+            p["mbs"] = p["mbs"][:i + 1]
+            out.append(("%s-%s" % (fault, pt), p))
+    p = base("P")
+    idx = [i for i, m in enumerate(p["mbs"]) if m["k"] == "mb" and m["t"] not in (3, 4)]
+    if idx:
+        i = rng.choice(idx); p["mbs"][i]["fault"] = "mvd"; p["mbs"] = p["mbs"][:i + 1]
+        out.append(("mvd-P", p))
+    # block level: forbidden INTRADC codes, escape with level 0
+    for dc in (0, 128):
+        p = base("I")
+        i = rng.randrange(len(p["mbs"]))
+        if p["mbs"][i]["k"] == "mb":
+            p["mbs"][i]["b"][rng.randrange(6)]["dc"] = dc
+            out.append(("intradc-%d" % dc, p))
+    p = base("I")
+    for m in p["mbs"]:
+        if m["k"] == "mb":
+            for b in m["b"]:
+                if b["ev"]:
+                    b["ev"][0] = [b["ev"][0][0], b["ev"][0][1], 0, 1]
+                    break
+    out.append(("escape-level-0", p))
+    return out
+
+
+@plan("C05")
+def c05(tier, seed):
+    run = Run("C05", tier, seed)
+    rng = random.Random(seed)
+    run.model_check("MCDecoder", "MCDecoder", workers=8, xmx="4g")      # FailureIsNoOp on the model
+    H = Hist()
+    sites = {}
+    # (1) failing inputs at every depth inside histories, followed by valid continuations
+    reps = 6 if tier == "quick" else 60
+    for rep in range(reps):
+        for (w, h) in [(16, 16), (33, 17)]:
+            ver = rep % 2
+            for prefix in (["I"], ["I", "P"], ["I", "P", "D"], []):
+                faults = faulty_pictures(rng, w, h, ver, bool(prefix))
+                if not prefix:
+                    faults = [("no-reference", pg.inter_picture(rng, sor_hdr(rng, "P", 3, w, h, ver), big=False, mix=[1, 5, 2, 3, 0, 0, 0]))]
+                for name, fp in (faults if rep == 0 or tier == "thorough" else rng.sample(faults, min(4, len(faults)))):
+                    H.new()
+                    for k, t in enumerate(prefix):
+                        H.op("newreader")
+                        hdr = sor_hdr(rng, t, k, w, h, ver)
+                        H.decode(pg.intra_picture(rng, hdr, big=False) if t == "I" else pg.inter_picture(rng, hdr, pt=t, big=False))
+                    H.op("newreader")
+                    if name == "no-reference":
+                        H.decode(fp)        # pixel mode: the specification itself demands the rejection
+                    else:
+                        H.decode(fp, opaque=True, why=name)
+                    sites[name] = sites.get(name, 0) + 1
+                    # garbage and a truncated header, then valid continuations
+                    H.op("newreader")
+                    H.decode(None, bytes=rng.choice(GARBAGE), why="garbage")
+                    for k, t in enumerate(["I"] if not prefix else rng.choice([["P", "D", "P"], ["D", "I", "P"], ["P"]])):
+                        H.op("newreader")
+                        hdr = sor_hdr(rng, t, 10 + k, w, h, ver)
+                        H.decode(pg.intra_picture(rng, hdr, big=False) if t == "I" else pg.inter_picture(rng, hdr, pt=t, big=False))
+    # (2) split delivery: every byte split point of an I and of a P picture
+    splits = []
+    for rep in range(2 if tier == "quick" else 12):
+        w, h = rng.choice([(16, 16), (32, 16), (17, 9)])
+        ver = rep % 2
+        ipic = pg.intra_picture(rng, sor_hdr(rng, "I", 0, w, h, ver), big=False, shape="sparse")
+        ppic = pg.inter_picture(rng, sor_hdr(rng, "P", 1, w, h, ver), big=False, shape="sparse", mix=[1, 5, 2, 3, 1, 1, 1])
+        splits.append((ipic, ppic))
+    # the split points depend on the encoded length: encode first, then build the histories
+    probe_cmds = []
+    for i, (ipic, ppic) in enumerate(splits):
+        probe_cmds += [{"op": "x", "pic": ipic, "k": i, "t": "I"}, {"op": "x", "pic": ppic, "k": i, "t": "P"}]
+    encp = run.encode(probe_cmds)
+    lens = {(c["k"], c["t"]): len(c["bytes"]) for c in encp}
+    nsplit = 0
+    for i, (ipic, ppic) in enumerate(splits):
+        for target in ("I", "P"):
+            n = lens[(i, target)]
+            for cut in range(1, n):
+                H.new()
+                if target == "P":
+                    H.decode(json.loads(json.dumps(ipic)))
+                    H.op("newreader")
+                pic = json.loads(json.dumps(ipic if target == "I" else ppic))
+                H.cmds.append({"op": "split", "d": 0, "h": H.n, "pic": pic, "cut": cut})
+                nsplit += 1
+    enc = run.encode(H.cmds)
+    # expand "split" pseudo commands: append first part, decode (opaque), append rest, decode (pixel, pre)
+    out = []
+    for c in enc:
+        if c["op"] != "split":
+            out.append(c)
+            continue
+        b, cut = c["bytes"], c["cut"]
+        out.append({"op": "append", "d": 0, "h": c["h"], "bytes": b[:cut]})
+        out.append({"op": "decode", "d": 0, "h": c["h"], "bytes": [], "pre": True, "why": "split-first-part"})
+        out.append({"op": "append", "d": 0, "h": c["h"], "bytes": b[cut:]})
+        out.append({"op": "decode", "d": 0, "h": c["h"], "pic": c["pic"], "bytes": b, "pre": True})
+    npics = sum(1 for c in out if c["op"] == "decode")
+    run.drive_and_validate(out, "TraceDecoder", group=hkey, sample=2, stat_fn=decode_stat)
+    run.evaluations = npics
+    run.nontrivial = H.n
+    run.notes["fault_sites"] = sites
+    run.notes["split_points"] = nsplit
+    run.notes["decode_calls"] = npics
+    return run.finish(
+        rule="(1) histories prefix {[], I, IP, IPD} x one failing input per error site (reserved size code, reserved picture "
+             "type, forbidden MCBPC / CBPY / MVD / TCOEF prefixes in I and P pictures, INTRADC 0 and 128, escape level 0, missing "
+             "reference, garbage) x valid continuations, one reader per call: after every err TLC checks planes, header, "
+             "(last, ref, keys), carried options and the reader probe are unchanged and the continuations decode in pixel mode "
+             "against the unchanged model state; (2) every byte split point of I and P pictures delivered in two parts: a "
+             "first call that fails must leave everything unchanged and the retry after the rest arrived must equal single "
+             "delivery (pixel mode); distinct = histories")
+
+
 # =========================================================================== C04
 GARBAGE = [[0xFF, 0xEE, 0xDD, 0xCC, 0xBB, 0xAA, 0x99, 0x88], [0x00, 0x00, 0x84], [0x00, 0x00, 0x80, 0x02, 0x1C], [0x12]]
 
